@@ -131,7 +131,7 @@ def run(ctx, R, tier):
     hcfg2 = ctx.cfg(hsf_)
     sends = [n for n in hcfg2.nodes for c in calls_in(n) if isinstance(c.func, ast.Attribute) and c.func.attr == "send" and isinstance(c.func.value, ast.Name) and c.func.value.id == hsf_.params[1]]
     if not sends:
-        raise AnalysisError("_handshake: the send of the handshake answer vanished")
+        R.note("_handshake sends no answer on this tree (C08-R4 reports that): nothing to check after the send")
     late = [n for n in hcfg2.nodes for c in calls_in(n) if isinstance(c.func, ast.Attribute) and c.func.attr in WAITS | {"recv_stub", "receive_data", "shutdown"}
             and hcfg2.path_exists(sends, lambda m, n=n: m is n)]
     R.check(not late, "C08-R2", "_handshake|returns-once-the-answer-is-sent", "after the handshake answer was sent _handshake neither reads from the peer nor waits", hsf_.loc(late[0].ast) if late else hsf_.loc(),
